@@ -18,7 +18,9 @@ DET_K = 3
 CASE_TIMEOUT = 600
 SELFTEST = {'quick': 8, 'thorough': 96}
 REQUIRED_PROBES = ['kind_pipeline', 'kind_equilibrium', 'chi_0', 'chi_1', 'kinetic_electrons', 'ntheta_even', 'ntheta_odd']
-RULE = ('case kinds: pipeline (85%) = random real (sometimes complex) density on (r,theta,z) with even or odd '
+RULE = ("Every check: in 12% of the cases one or two bystander ranks share the simulated job and the code under test runs on world.Split(...); one case in HASHSEED_EVERY is re-run in fresh interpreters under other string-hash seeds and every rank's trace (collectives, data sent, result) must agree. "
+        'Also: optional field factor B (40%), caller-supplied Te profile (25%), radial spline degree 2/4/5 (25%), density scaled by 1e-9 / 1e-12 / 1e6 (50%), a second solve on the same objects (40%), the same solver on grids over another process grid of the communicator (40%). '
+        'case kinds: pipeline (85%) = random real (sometimes complex) density on (r,theta,z) with even or odd '
         'theta counts, chi in {0,1}, adiabatic or kinetic electrons, 1-3 process grids; the driver\'s sequence '
         'getModes -> setLayout(mode_solve) -> solveEquation -> setLayout(v_parallel_2d) -> findPotential with '
         'rho on a LayoutHandler and phi on the driver\'s LayoutSwapper.  Oracles: FFT round trip is the '
